@@ -446,7 +446,7 @@ var explains = map[string]map[string]bool{
 	"required-cookie":                                   {"leaked": true},
 	"required-query-map-absent":                         {"leaked": true, "misnamed:invalid_length": true},
 	"path-value-with-slash":                             {"rejected:fault": true, "misnamed:fault": true},
-	"body-attr-absent":                                  {"panic": true, "rejected:*": true, "misnamed:*": true, "mismatch": true, "refused:type": true},
+	"body-attr-absent":                                  {"panic": true, "rejected:*": true, "misnamed:*": true, "mismatch": true, "refused:*": true},
 	"required-object-outside-view":                      {"panic": true},
 	"tagged-response-header-absent":                     {"panic": true},
 	"recursive-result-type":                             {"view:nested": true},
